@@ -124,6 +124,7 @@ static int bufferConv(MPT_INTERFACE(convertable) *val, MPT_TYPE(type) type, void
 				MPT_ENUM(TypeIteratorPtr),
 				MPT_ENUM(TypeBufferPtr),
 				MPT_type_toVector('c'),
+				's',
 				0
 			};
 			*((const uint8_t **) ptr) = fmt;
@@ -137,6 +138,20 @@ static int bufferConv(MPT_INTERFACE(convertable) *val, MPT_TYPE(type) type, void
 	if (type == MPT_ENUM(TypeIteratorPtr)) {
 		if (ptr) *((const void **) ptr) = &m->_it;
 		return MPT_ENUM(TypeArray);
+	}
+	/* terminated character data is valid string */
+	if (type == 's') {
+		const MPT_STRUCT(buffer) *buf;
+		const char *txt = 0;
+		if ((buf = m->s._a._buf) && buf->_used) {
+			txt = (const char *) (buf + 1);
+			if (buf->_content_traits != mpt_type_traits('c')
+			    || !memchr(txt, 0, buf->_used)) {
+				return MPT_ERROR(BadType);
+			}
+		}
+		if (ptr) *((const char **) ptr) = txt;
+		return MPT_ENUM(TypeIteratorPtr);
 	}
 	if (type == MPT_ENUM(TypeBufferPtr)) {
 		if (ptr) *((const void **) ptr) = m->s._a._buf;
